@@ -521,7 +521,6 @@ func renameBack(p *Prog) (map[string][]byte, []string) {
 	return out, notes
 }
 
-
 // posLess orders declarations by file base name, then offset.
 func posKey(p *Prog, pk *packages.Package, o types.Object) string {
 	ps := pk.Fset.Position(o.Pos())
